@@ -298,14 +298,114 @@ def translate(repo):
     return "\n".join(out), methods
 
 
+# ---------------------------------------------------------------------------------------------------
+# adopt.rs: `adopt_unchecked` and `unadopt` of `impl Adopt for Rc<T>` -- a command language over link
+# tables. Statements of the subset (after comments and `unsafe { .. }` wrappers are removed):
+#   if ptr::eq(this, other) { S* return; }
+#   let mut links = X.inner().links().borrow_mut();      X in {this, other}
+#   links.insert(Link::K(Y.ptr));   links.remove(Link::K(Y.ptr), N);   K in {forward, backward, loopback}
+#   drop(links);   return;
+# The output is an abstract syntax tree (type [lstmt] of gen/AdoptProofs.v); its meaning -- which table a
+# guard named `links` borrows, when a guard is released (explicit drop, or scope end in reverse order) --
+# is given in Coq by [run_prog].
+KIND = {"forward": "Fwd", "backward": "Bwd", "loopback": "Loop"}
+TGT = {"this": "This", "other": "Other"}
+
+
+def adopt_stmts(body):
+    body = re.sub(r"//[^\n]*", "", body)
+    body = re.sub(r"unsafe\s*\{([^{}]*)\}", r"\1", body)          # `unsafe { expr }` around a borrow
+    body = " ".join(body.split())
+    out, i = [], 0
+
+    def cmds(txt):
+        res, j = [], 0
+        pats = [
+            (r"let mut links = (this|other)\.inner\(\)\.links\(\)\.borrow_mut\(\) ?;", lambda m: "LBorrowMut %s" % TGT[m.group(1)]),
+            (r"links\.insert\(Link::(forward|backward|loopback)\((this|other)\.ptr\)\);",
+             lambda m: "LInsert %s %s" % (KIND[m.group(1)], TGT[m.group(2)])),
+            (r"links\.remove\(Link::(forward|backward|loopback)\((this|other)\.ptr\), (\d+)\);",
+             lambda m: "LRemove %s %s %s%%N" % (KIND[m.group(1)], TGT[m.group(2)], m.group(3))),
+            (r"drop\(links\);", lambda m: "LRelease"),
+            (r"return;", lambda m: "LReturn"),
+        ]
+        txt = txt.strip()
+        while j < len(txt):
+            if txt[j] == " ":
+                j += 1
+                continue
+            for pat, f in pats:
+                m = re.match(pat, txt[j:])
+                if m:
+                    res.append(f(m))
+                    j += m.end()
+                    break
+            else:
+                raise Unsupported("adopt.rs statement outside the subset: %r" % txt[j:j + 60])
+        return res
+    while i < len(body):
+        if body[i] == " ":
+            i += 1
+            continue
+        m = re.match(r"if ptr::eq\(this, other\) \{", body[i:])
+        if m:
+            j = i + m.end()
+            k = body.index("}", j)
+            inner = cmds(body[j:k])
+            out.append("LIfSame [%s]" % "; ".join(inner))
+            i = k + 1
+            continue
+        # a run of plain commands up to the next `if` or the end
+        nxt = body.find("if ptr::eq", i)
+        chunk = body[i:nxt] if nxt >= 0 else body[i:]
+        for c in cmds(chunk):
+            out.append("LCmd (%s)" % c)
+        i = nxt if nxt >= 0 else len(body)
+    return out
+
+
+def translate_adopt(repo):
+    path = repo + "/src/adopt.rs"
+    src = open(path).read()
+    m = re.search(r"unsafe impl<T> Adopt for Rc<T> \{(.*)\n\}\n", src, re.S)
+    if not m:
+        raise Unsupported("impl Adopt for Rc<T> not found")
+    impl = m.group(1)
+    res = {}
+    for name in ("adopt_unchecked", "unadopt"):
+        mm = re.search(r"fn\s+%s\s*\(this: &Self, other: &Self\)\s*\{" % name, impl)
+        if not mm:
+            raise Unsupported("fn %s(this: &Self, other: &Self) not found" % name)
+        i, depth = mm.end(), 1
+        while depth:
+            ch = impl[i]
+            depth += ch == "{"
+            depth -= ch == "}"
+            i += 1
+        res[name] = adopt_stmts(impl[mm.end():i - 1])
+    text = ("(* GENERATED by tools/rs2v.py from %s (impl Adopt for Rc<T>) -- do not edit. *)\n"
+            "From Coq Require Import NArith List. Import ListNotations.\n"
+            "From CR Require Import Base.\nFrom Gen Require Import AdoptLang.\n\n" % path)
+    for name, sts in res.items():
+        text += "Definition g_%s : list lstmt :=\n  [ %s ].\n\n" % (name, ";\n    ".join(sts))
+    return text
+
+
 if __name__ == "__main__":
+    # rs2v.py <repo> <outdir> <counters|adopt>   (no outdir: print)
+    import os
     repo = sys.argv[1] if len(sys.argv) > 1 else "/repo"
+    outdir = sys.argv[2] if len(sys.argv) > 2 else None
+    part = sys.argv[3] if len(sys.argv) > 3 else "counters"
     try:
-        text, methods = translate(repo)
-    except Unsupported as e:
-        print("rs2v: outside the translated subset:", e, file=sys.stderr)
+        if part == "counters":
+            text, name = translate(repo)[0], "Counters.v"
+        else:
+            text, name = translate_adopt(repo), "AdoptGen.v"
+    except (Unsupported, ValueError, IndexError) as e:
+        print("rs2v (%s): outside the translated subset: %s" % (part, e), file=sys.stderr)
         sys.exit(2)
-    if len(sys.argv) > 2:
-        open(sys.argv[2], "w").write(text)
+    if outdir:
+        open(os.path.join(outdir, name), "w").write(text)
     else:
         sys.stdout.write(text)
